@@ -31,6 +31,7 @@ def run(ctx):
                         "helper call chains deeper than 4 and indirect calls (load_constant slots) are covered by the non-rule pass"]
     oracle = IsaOracle(os.path.join(ctx.scratch, "isa"))
     total_sites = 0
+    ndel = [0]
     for target in ("sse", "mmx", "avx"):
         be = Backend(db, target)
         fl = flag_levels(target)
@@ -45,6 +46,7 @@ def run(ctx):
         base_level = min(max([fl[n] for n in be.flag_names(w)] or [0]) for _, _, w in regs)
         # collect sites
         work = []   # (owner-key, have-level, site)
+        have_sets = {}
         rule_funcs = set()
         for fn, lst in sorted(by_fn.items()):
             f = db.func(fn, be.rules_tu.base[:-2])
@@ -54,6 +56,9 @@ def run(ctx):
             req = min(req_levels)
             for site in be.all_sites(f):
                 work.append(("%s:%s" % (target, fn), req, site, sorted({o for o, _ in lst})[:3]))
+            # flags common to every rule set this function is registered in
+            sets_ = [{fl[n] for n in be.flag_names(w)} for _, w in lst]
+            have_sets["%s:%s" % (target, fn)] = set.intersection(*sets_) if sets_ else set()
         # non-rule emitters of this backend
         covered = {(s[2][0].name, s[2][0].tu.base) for s in work}
         for t in db.tus.values():
@@ -85,8 +90,11 @@ def run(ctx):
             level_of[key] = min(got) if got else None
         seen = set()
         nsite = 0
+        setviol = []
         for owner, have0, (f, c, rows, cls, form, guards, stack), ops in work:
             have = max([have0] + [fl[g] for g in guards if g in fl])
+            # set semantics ("no instruction without ITS flag"): the levels individually established for this site
+            have_set = set(have_sets.get(owner, ())) | {fl[g] for g in guards if g in fl}
             for r in rows:
                 if not (0 <= r < len(be.rows)):
                     continue
@@ -96,6 +104,15 @@ def run(ctx):
                     if lvl is None:
                         lvl = level_of.get((r, k, "mem" if form == "reg" else "reg"))
                     if lvl is None:
+                        if (need.get((r, k, form)) or need.get((r, k, "mem" if form == "reg" else "reg"))) and k in ("mm", "xmm", "vex128", "vex256") \
+                                and (owner, be.idx[r][0], k, f.name, "noform") not in seen:
+                            # the assembler knows this mnemonic for no operand shape of this register class at any ISA level
+                            seen.add((owner, be.idx[r][0], k, f.name, "noform"))
+                            nsite += 1
+                            rep.violation("R-GUARD", where(f), "%s|%s:%s@%s:no-such-form" % (owner, be.idx[r][0], k, f.name),
+                                          "%s emits `%s` on %s registers, a combination GNU as accepts under no -march level: the instruction has no "
+                                          "encoding for that register class (what the CPU executes is undefined or another instruction)%s" %
+                                          (f.name, be.rows[r]["name"], k, (" (rule for %s)" % ",".join(ops)) if ops else ""), line=c.line)
                         continue   # GP / pseudo rows: no SIMD ISA level
                     key = (owner, en, k, f.name)
                     if key in seen and lvl <= have:
@@ -106,6 +123,15 @@ def run(ctx):
                     seen.add(key)
                     nsite += 1
                     chain = " <- ".join(reversed(stack + (f.name,)))
+                    if lvl <= have and not (lvl <= base_level or lvl in have_set) and not owner.endswith("<base>"):
+                        # "no instruction without ITS flag": the ladder would allow it, but the flag of this instruction's own level is
+                        # established neither by the rule set(s) of the rule nor by a guard; the caller may pass any subset of flags
+                        rep.violation("R-GUARD", where(f), inst + ":own-flag",
+                                      "%s emits `%s` on %s registers (%s form), which needs `%s`; the flags established for this site are %s (rule set + "
+                                      "guards) - a flag word with those but without `%s` compiles and contains the instruction%s" %
+                                      (chain, be.rows[r]["name"], k, form, LADDER[lvl], sorted(LADDER[x] for x in have_set), LADDER[lvl],
+                                       (" (rule for %s)" % ",".join(ops)) if ops else ""), line=c.line)
+                        continue
                     rep.check(lvl <= have, "R-GUARD", where(f), inst,
                               "%s (%s, %s form) needs `%s`; flags established: level `%s` (rule set + guards %s)" %
                               (be.rows[r]["name"], k, form, LADDER[lvl], LADDER[have], sorted(guards)),
@@ -113,12 +139,30 @@ def run(ctx):
                               (chain, be.rows[r]["name"], k, form, LADDER[lvl], (" and guards %s" % sorted(guards)) if guards else "", LADDER[have],
                                (" (rule for %s)" % ",".join(ops)) if ops else ""), line=c.line)
         total_sites += nsite
+        # R-DELEGATE: a rule that hands its instruction to another rule function (fallback when a resource is missing) must hand it
+        # to a rule of the SAME opcode; otherwise the result depends on which flags selected the first rule
+        ops_of = {}
+        for fn_, op_, _w in regs:
+            ops_of.setdefault(fn_, set()).add(op_)
+        for fn_, lst in sorted(by_fn.items()):
+            f_ = db.func(fn_, be.rules_tu.base[:-2])
+            for c_ in f_.calls():
+                if c_.name in ops_of and c_.name != fn_ and len(c_.args()) == 3:
+                    mine = {o for o, _ in lst}
+                    ndel[0] += 1
+                    rep.check(mine <= ops_of[c_.name], "R-DELEGATE", where(f_), "%s:%s->%s" % (target, fn_, c_.name),
+                              "falls back to a rule registered for the same opcode(s) %s" % sorted(mine),
+                              "%s, the %s rule for %s, hands the instruction to %s, which is the rule for %s - a different opcode: under the flags that select "
+                              "%s the program computes something else than under the other flag subsets" %
+                              (fn_, target, sorted(mine), c_.name, sorted(ops_of[c_.name]), fn_), line=c_.line)
         rep.extra.setdefault("per_backend", {})[target] = {"registrations": len(regs), "rule_functions": len(by_fn), "emission_sites": len(work),
                                                             "distinct_obligations": nsite, "unresolved_opcode_args": len(be.unresolved),
                                                             "base_level": LADDER[base_level]}
         for f, c in be.unresolved[:10]:
             rep.info("%s: opcode argument of %s in %s not constant-resolvable: %s" % (target, c.name, f.name, unparse(c.args()[1])[:60]))
     rep.floor("R-GUARD", 600)
+    if ndel[0] < 3:
+        raise AnalysisBroken("only %d rule-to-rule delegations found" % ndel[0])
     # The verdicts above hold for "the flags under which a rule is reached".  That a rule is reached only when all the
     # required flags of its rule set are present, and that nothing remembers a lookup made under other flags, is the
     # premise; it is decided by C20-D2's rules, re-run here so that C11 does not pass on a tree where it fails.
